@@ -246,10 +246,10 @@ theorem path_tlv_fits_iff (p : Port) (s : InstState) :
   omega
 
 /-- the stored path is the one received from the parent: an Announce of the parent on the Slave port that is not
-looping stores the identities of its (first) PATH_TRACE TLV -/
+looping stores the identities of its (first) PATH_TRACE TLV (the first 128 of them: the capacity of the list) -/
 theorem path_trace_stored (p : Port) (s s1 : InstState) (m : Msg) (a : Ann) (t : Tlv)
     (hs : p.st.isSlave = true) (hp : a.hdr.src = s.parent.parentPort) (hpt : pathTlvOf s m = some t)
-    (h : p.announceUpdate s m a = .ok (s1, false)) : s1.pathTrace = pathOf t.value := by
+    (h : p.announceUpdate s m a = .ok (s1, false)) : s1.pathTrace = (pathOf t.value).take PATH_TRACE_CAP := by
   rcases announceUpdate_cases p s s1 m a false h with ⟨hn, _⟩ | ⟨_, _, _, _, hl⟩ | ⟨_, _, _, _, s2, _, hst⟩
   · exact absurd ⟨hs, hp⟩ hn
   · cases hl
@@ -268,9 +268,7 @@ theorem path_trace_kept (p : Port) (s s1 : InstState) (m : Msg) (a : Ann) (loop 
     rcases storePath_spec s2 s1 _ hst with ⟨_, e⟩ | ⟨t', e, _, _⟩
     · rw [e]
       unfold InstState.applyParent at hap
-      split at hap
-      · cases hap
-      · simp only [Except.ok.injEq] at hap; rw [← hap]
+      simp only [Except.ok.injEq] at hap; rw [← hap]; rfl
     · cases e
 
 /-- **An Announce from the parent whose path already contains the instance's identity is discarded**: it changes
